@@ -791,6 +791,173 @@ def loopOn%s (n len : Nat) : Bool := %s""" % ({"Main": "in-loop", "Left": "lefto
 GENERATORS["Collector"] = gen_collector
 
 
+# ---------------------------------------------------------------------------------------------------------
+# conversion: the coordinate arithmetic at the end of to_unstable / to_stable, by symbolic execution of the assignments
+class Sym:
+    """straight-line assignments under if/else over integer expressions -> one Lean expression per variable"""
+
+    def __init__(self, atoms, bool_atoms):
+        self.atoms = atoms            # unparsed python expression -> lean Int term
+        self.bool_atoms = bool_atoms  # unparsed python test -> lean Bool term
+
+    def ex(self, e, env):
+        u = ast.unparse(e)
+        if u in self.atoms:
+            return self.atoms[u]
+        if isinstance(e, ast.Name):
+            if e.id in env and env[e.id] is not None:
+                return env[e.id]
+            raise Untranslatable("variable %s read before it is assigned" % e.id)
+        if isinstance(e, ast.Constant) and isinstance(e.value, bool):
+            return "true" if e.value else "false"
+        if isinstance(e, ast.Constant) and isinstance(e.value, int):
+            return "(%d : Int)" % e.value
+        if isinstance(e, ast.UnaryOp) and isinstance(e.op, ast.USub):
+            return "(-%s)" % self.ex(e.operand, env)
+        if isinstance(e, ast.BinOp) and type(e.op) in (ast.Add, ast.Sub):
+            return "(%s %s %s)" % (self.ex(e.left, env), "+" if isinstance(e.op, ast.Add) else "-", self.ex(e.right, env))
+        if isinstance(e, ast.Call) and isinstance(e.func, ast.Name) and e.func.id == "int" and len(e.args) == 1:
+            return self.ex(e.args[0], env)
+        raise Untranslatable("expression " + u)
+
+    def test(self, e):
+        u = ast.unparse(e)
+        if u in self.bool_atoms:
+            return self.bool_atoms[u]
+        if isinstance(e, ast.UnaryOp) and isinstance(e.op, ast.Not):
+            return "(!%s)" % self.test(e.operand)
+        if isinstance(e, ast.BoolOp):
+            return "(" + (" && " if isinstance(e.op, ast.And) else " || ").join(self.test(x) for x in e.values) + ")"
+        raise Untranslatable("test " + u)
+
+    def run(self, stmts, env, assign_hook=None):
+        env = dict(env)
+        for st in stmts:
+            if isinstance(st, ast.Expr) and isinstance(st.value, ast.Constant):
+                continue
+            if isinstance(st, ast.Pass):
+                continue
+            if isinstance(st, ast.Assign) and len(st.targets) == 1:
+                tgt = ast.unparse(st.targets[0])
+                if assign_hook:
+                    v = assign_hook(tgt, st.value, env)
+                    if v is not None:
+                        env[tgt] = v
+                        continue
+                env[tgt] = self.ex(st.value, env)
+                continue
+            if isinstance(st, ast.If):
+                c = self.test(st.test)
+                a = self.run(st.body, env, assign_hook)
+                b = self.run(st.orelse, env, assign_hook)
+                for k in set(a) | set(b):
+                    va, vb = a.get(k), b.get(k)
+                    if va == vb:
+                        env[k] = va
+                    elif va is None or vb is None:
+                        env[k] = None          # assigned on one path only: reading it later is refused
+                    else:
+                        env[k] = "(if %s then %s else %s)" % (c, va, vb)
+                continue
+            raise Untranslatable("statement " + ast.unparse(st)[:70])
+        return env
+
+
+def _format_columns(fn, cols):
+    """the expressions printed in the given (0-based) tab-separated columns of the twelve-column format string of `fn`"""
+    for st in ast.walk(fn):
+        if (isinstance(st, (ast.Assign, ast.AugAssign)) and isinstance(st.value, ast.BinOp) and isinstance(st.value.op, ast.Mod)
+                and isinstance(st.value.left, ast.Constant) and isinstance(st.value.left.value, str) and st.value.left.value.count("\t") == 11
+                and isinstance(st.value.right, ast.Tuple)):
+            fields = st.value.left.value.split("\t")
+            args = st.value.right.elts
+            out, k = {}, 0
+            for i, f in enumerate(fields):
+                n = f.count("%")
+                if i in cols:
+                    if n != 1:
+                        raise Untranslatable("column %d is not one placeholder" % (i + 1))
+                    out[i] = args[k]
+                k += n
+            if k != len(args):
+                raise Untranslatable("format arguments do not match the placeholders")
+            return st, out
+    raise Untranslatable("twelve-column format statement not found in %s" % fn.name)
+
+
+def gen_coords():
+    _, src = src_of("gaftools/conversion.py")
+    mod = ast.parse(src)
+    # ---- to_unstable: after the loop over the path items
+    fn = find_func(mod, "to_unstable")
+    fmt_st, cols = _format_columns(fn, {6, 7, 8})
+    top = fn.body
+    fmt_i = top.index(fmt_st)
+    loop_i = max(i for i, st in enumerate(top[:fmt_i]) if isinstance(st, ast.For))
+    tail = top[loop_i + 1:fmt_i]
+    sym = Sym({"gaf_line.path_length": "plen", "gaf_line.path_start": "ps", "gaf_line.path_end": "pe"},
+              {"gaf_line.strand == '-'": "minus", "gaf_line.strand == '+'": "(!minus)", "split_contig": "split"})
+    env = sym.run(tail, {"new_total": "newTotal", "new_start": "newStart"})
+    u = [sym.ex(cols[i], env) for i in (6, 7, 8)]
+    a = """/-- conversion.to_unstable: path length, path start and path end written in columns 7-9, from the strand, whether the last
+    path item was an interval (`split_contig`), the input columns and what the loop over the items accumulated -/
+def unstableCoords (minus split : Bool) (plen ps pe newTotal newStart : Int) : Int × Int × Int :=
+  (%s,
+   %s,
+   %s)""" % tuple(u)
+    # ---- to_stable: the single-reference-interval collapse
+    fn = find_func(mod, "to_stable")
+    fmt_st, cols = _format_columns(fn, {4, 6, 7, 8})
+    top = fn.body
+    fmt_i = top.index(fmt_st)
+    loop_i = max(i for i, st in enumerate(top[:fmt_i]) if isinstance(st, ast.For))
+    tail = top[loop_i + 1:fmt_i]
+    if len(tail) != 1 or not isinstance(tail[0], ast.If):
+        raise Untranslatable("to_stable: expected one if/else between the merge loop and the format statement")
+    collapse_test = ast.unparse(tail[0].test)
+    if collapse_test != "len(out_node) == 1 and out_node[0][0].contig_id in ref_contig":
+        raise Untranslatable("to_stable: collapse test is %s" % collapse_test)
+    sym = Sym({"gaf_line.path_length": "plen", "gaf_line.path_start": "ps", "gaf_line.path_end": "pe", "out_node[0][0].start": "nodeStart",
+               "contig_len[stable_coord]": "total", "contig_len[out_node[0][0].contig_id]": "total"},
+              {collapse_test: "collapse", "out_node[0][1] == '<'": "rev", "out_node[0][1] == '>'": "(!rev)"})
+
+    def hook(tgt, val, env):
+        if tgt == "gaf_line.strand":
+            if isinstance(val, ast.Constant) and val.value in ("+", "-"):
+                return "true" if val.value == "+" else "false"
+            raise Untranslatable("strand assigned %s" % ast.unparse(val))
+        if tgt in ("stable_coord",) or (tgt == "stable_coord" and isinstance(val, ast.BinOp)):
+            return "0"        # the path text is not part of this fragment
+        return None
+    pre = {"reverse_flag": "false", "gaf_line.strand": "strandPlus", "stable_coord": "0"}
+    # `stable_coord += ...` in the else branch is an AugAssign: drop it (path text)
+    class Drop(ast.NodeTransformer):
+        def visit_AugAssign(self, node):
+            return ast.Pass() if ast.unparse(node.target) == "stable_coord" else node
+    tail = [Drop().visit(ast.parse(ast.unparse(tail[0])).body[0])]
+    env = sym.run(tail, pre, hook)
+    if env.get("reverse_flag") is None or env.get("gaf_line.strand") is None:
+        raise Untranslatable("to_stable: reverse_flag / strand not determined")
+    strand_col = ast.unparse(cols[4])
+    if strand_col != "gaf_line.strand":
+        raise Untranslatable("to_stable: column 5 prints %s" % strand_col)
+    v = [env["gaf_line.strand"], env["reverse_flag"]] + [sym.ex(cols[i], env) for i in (6, 7, 8)]
+    b = """/-- conversion.to_stable: strand column ('+' = true), whether the CIGAR is reversed, and columns 7-9, from whether the merged
+    path is a single interval on a reference contig (`collapse`), its orientation (`rev` = '<'), its start, the contig length
+    and the input columns -/
+def stableCoords (collapse rev strandPlus : Bool) (nodeStart total plen ps pe : Int) : Bool × Bool × Int × Int × Int :=
+  (%s,
+   %s,
+   %s,
+   %s,
+   %s)""" % tuple(v)
+    return ("/-! generated by harness/translate.py from gaftools/conversion.py : coordinate arithmetic — do not edit -/\n"
+            "namespace Gaftools.Gen\n" + a + "\n\n" + b + "\nend Gaftools.Gen\n")
+
+
+GENERATORS["Coords"] = gen_coords
+
+
 def regenerate(only=None):
     """returns {name: {"tie": "A"|"B-only", "detail": str, "changed": bool}}"""
     os.makedirs(GEN, exist_ok=True)
@@ -816,6 +983,18 @@ def regenerate(only=None):
 
 
 FALLBACK = {
+    "Coords": """/-! FALLBACK (source construct outside the translator's subset): the coordinate arithmetic as modelled by hand -/
+namespace Gaftools.Gen
+def unstableCoords (minus split : Bool) (plen ps pe newTotal newStart : Int) : Int × Int × Int :=
+  if minus then (if split then (plen, plen - pe, plen - ps) else (newTotal, (newTotal - newStart) - (pe - ps), newTotal - newStart))
+  else (if split then (plen, ps, pe) else (newTotal, newStart, newStart + (pe - ps)))
+def stableCoords (collapse rev strandPlus : Bool) (nodeStart total plen ps pe : Int) : Bool × Bool × Int × Int × Int :=
+  if collapse then
+    (if rev then (false, true, total, nodeStart + plen - pe, nodeStart + plen - pe + pe - ps)
+     else (strandPlus, false, total, nodeStart + ps, nodeStart + ps + pe - ps))
+  else (strandPlus, false, plen, ps, ps + pe - ps)
+end Gaftools.Gen
+""",
     "Collector": """/-! FALLBACK (source construct outside the translator's subset): the collector protocol as modelled by hand -/
 namespace Gaftools.Gen
 abbrev Proc := Bool × Option Int
